@@ -1077,8 +1077,21 @@ pub fn run_sm(c: &Value) -> RunResult {
             }
         }
     }
+    // C11 only: the same history once more, every scripted request preceded, on the same handle, by a request that is
+    // abandoned after its first poll (its message stays in the handle's slot of the control channel).  The request proper
+    // must still get a truthful reply: only that is looked at, the trace of this run is compared with nothing.
+    if ABANDON_PROBE.load(Ordering::SeqCst) && !arr(c, "inject").is_empty() && r.violation.is_none() && !r.hang && r.panic.is_none() {
+        let mut c3 = c.clone();
+        c3["abandon"] = json!(true);
+        let r3 = run_sm_once(&c3);
+        if let Some(v) = r3.violation {
+            if v.contains(ABANDON_MSG) { r.violation = Some(v); }
+        }
+    }
     r
 }
+pub static ABANDON_PROBE: AtomicBool = AtomicBool::new(false);
+const ABANDON_MSG: &str = "on a handle whose earlier request was abandoned";
 fn run_sm_once(c: &Value) -> RunResult {
     install_sink();
     let storage: Vec<(String, SVal)> = arr(c, "storage").iter().map(|kv| (strv(&kv[0]), sval_of(&kv[1]))).collect();
@@ -1213,6 +1226,7 @@ fn drive(c: &Value, world: W) -> bool {
     let mut controls: Vec<(u64, Option<CtlFut>)> = vec![];
     let mut next_ctl = 0u64;
     let mut polls = 0u64;
+    let abandon = c["abandon"].as_bool().unwrap_or(false);
     let send = |handle: &Option<omaha_client::state_machine::ControlHandle>, src: &str, next_ctl: &mut u64,
                 controls: &mut Vec<(u64, Option<CtlFut>)>, cx: &mut Context<'_>, world: &W| {
         if let Some(h) = handle {
@@ -1227,9 +1241,17 @@ fn drive(c: &Value, world: W) -> bool {
                 if w.reboot_wait && src == "ondemand" { w.reask_causes += 1; }
                 w.log(format!("ARequest {} {}", id, g_source(&source)), format!("request {} {:?}", id, source));
             }
+            if abandon {
+                let mut f0 = Box::pin(h.start_update_check(opts.clone()));
+                let _ = f0.as_mut().poll(cx);
+                drop(f0);
+            }
             let mut fut: CtlFut = Box::pin(async move { h.start_update_check(opts).await });
             if let Poll::Ready(r) = fut.as_mut().poll(cx) {
-                { let mut w = world.lock().unwrap(); w.pending_requests -= 1; w.jtrace.push(format!("reply {} immediate {:?}", id, r.is_ok())); }
+                { let mut w = world.lock().unwrap(); w.pending_requests -= 1; w.jtrace.push(format!("reply {} immediate {:?}", id, r.is_ok()));
+                  if abandon && r.is_err() {
+                      w.violate(&format!("a start-update-check request {} fails with a gone error although the machine is still running", ABANDON_MSG));
+                  } }
                 controls.push((id, None));
             } else {
                 controls.push((id, Some(fut)));
@@ -1249,7 +1271,8 @@ fn drive(c: &Value, world: W) -> bool {
                     let mut w = world.lock().unwrap();
                     w.pending_requests -= 1;
                     if res.is_err() && !matches!(r, Poll::Ready(None)) {
-                        w.violate("a start-update-check request fails with a gone error although the machine is still running");
+                        if abandon { w.violate(&format!("a start-update-check request {} fails with a gone error although the machine is still running", ABANDON_MSG)); }
+                        else { w.violate("a start-update-check request fails with a gone error although the machine is still running"); }
                     }
                     match res {
                         Ok(StartUpdateCheckResponse::Started) => w.log(format!("AReply {} Started", id), format!("reply {} Started", id)),
